@@ -66,6 +66,7 @@ def check(tier, seed):
     with C.WorkDir('C17') as wd:
         C.audit_sources()
         C.props_obligations(res, 'C17', wd)
+        C.tie_b_helpers(res, wd)
         rng = C.rng_for(seed, 'C17')
         mt = R.message_table()
         GN = mt['UbxCfgGnss']['cls']
